@@ -149,9 +149,15 @@ def check_block(lines_sets, eol="\r\n", blank_every=0, ident=b"/ABC5xyz") -> lis
     d_auto_p = a.decode_message_payload(block)
     if d_auto_p != d_content:
         errs.append(f"AutoDecoder.decode_message_payload {d_auto_p!r:.120} != decode_p1_readout_content {d_content!r:.120}")
-    d_auto_m = autodecoder.AutoDecoder().decode_message(ro)
+    am = autodecoder.AutoDecoder()
+    d_auto_m = am.decode_message(ro)
     if d_auto_m != d_ro:
         errs.append(f"AutoDecoder.decode_message {d_auto_m!r:.120} != decode_p1_readout {d_ro!r:.120}")
+    if am.previous_success_decoder != "P1" or a.previous_success_decoder != "P1":
+        errs.append(f"after decoding a P1 readout / block on a fresh AutoDecoder previous_success_decoder is {am.previous_success_decoder!r} / {a.previous_success_decoder!r}, expected 'P1'")
+    d_again = am.decode_message(ro)  # the decoder that is remembered now must give the same result
+    if d_again != d_ro:
+        errs.append(f"AutoDecoder.decode_message a second time {d_again!r:.120} != decode_p1_readout {d_ro!r:.120}")
     return errs
 
 
